@@ -115,7 +115,7 @@ func runC20(r *Report, tier string) {
 			}
 		}
 	}
-	r.floor("R20.1", nStores, 6, "stores to Signature fields / whole structure values")
+	r.floorSoft("R20.1", nStores, 6, "stores to Signature fields / whole structure values")
 
 	// R20.2
 	n2 := 0
@@ -141,7 +141,7 @@ func runC20(r *Report, tier string) {
 			}
 		}
 	}
-	r.floor("R20.2", n2, 20, "functions returning (bytes, error)")
+	r.floorSoft("R20.2", n2, 20, "functions returning (bytes, error)")
 
 	// R20.3
 	nEnc := 0
